@@ -115,6 +115,8 @@ type live struct {
 	generation   int // store process generation (restarts)
 	tasksBusy    int
 	refreshes    int
+	cancellable  map[int]context.CancelFunc // in-flight explicit refreshes
+	refreshSeq   int
 	coalesceFrom int64 // requests before this stamp belong to an earlier process
 	epochSnap    map[string]bool
 	epochSnapAt  int64
@@ -138,7 +140,8 @@ func RunLive(s *kernel.Sim, o LiveOpts) *World {
 	t := w.T
 	s.SetFree(false)
 	l := &live{w: w, o: &o, t: t, handles: map[string]setec.Secret{}, handedOut: map[string]bool{}, lastRead: map[string]int64{},
-		pinnedAt: map[string]int64{}, readerBusy: map[int]bool{}, readStamp: map[string]int64{}, pinCalls: map[string][]*pinCall{},
+		cancellable: map[int]context.CancelFunc{},
+		pinnedAt:    map[string]int64{}, readerBusy: map[int]bool{}, readStamp: map[string]int64{}, pinCalls: map[string][]*pinCall{},
 		isDeclared: map[string]bool{}, prevDoc: map[string]uint32{}, installs: map[string][]inst{}}
 
 	names := w.DrawNames(t.Range(2, 5))
@@ -238,6 +241,7 @@ func RunLive(s *kernel.Sim, o LiveOpts) *World {
 	w.Loop(maxSteps*4, 8, func() bool { steps++; return steps < maxSteps*4 && w.Ops < maxSteps }, func() []Action {
 		l.absorb()
 		l.checkBlockedReaders()
+		l.checkDocComplete()
 		var acts []Action
 		_, en := s.Tickets()
 		quiet := len(en) == 0
@@ -249,6 +253,23 @@ func RunLive(s *kernel.Sim, o LiveOpts) *World {
 				add(3, "tick", func() { l.tick() })
 			}
 			add(3, "refresh", func() { l.refresh() })
+			if len(l.cancellable) > 0 {
+				// cancel an in-flight refresh at this very point of the
+				// schedule (between two of its round's requests, say)
+				add(2, "cancel-refresh", func() {
+					ids := make([]int, 0, len(l.cancellable))
+					for id := range l.cancellable {
+						ids = append(ids, id)
+					}
+					sort.Ints(ids)
+					id := ids[t.Choice(len(ids))]
+					w.Tracef("cancel refresh #%d", id)
+					s.Fault("refresh-cancelled")
+					l.cancellable[id]()
+					delete(l.cancellable, id)
+					s.Advance(0)
+				})
+			}
 			if w.InFlight() == 0 && w.FlightsIdle() {
 				add(3, "svc-change", func() { l.svcChange() })
 			}
@@ -275,7 +296,15 @@ func RunLive(s *kernel.Sim, o LiveOpts) *World {
 			}
 		}
 		if o.Updaters && len(l.updaters) > 0 {
-			add(4, "updater-get", func() { l.updaterGet() })
+			// mostly one Get at a time per updater (those are judged exactly);
+			// overlapping Gets are explored too, at a lower rate
+			wt := 4
+			for _, us := range l.updaters {
+				if len(us.active) > 0 {
+					wt = 1
+				}
+			}
+			add(wt, "updater-get", func() { l.updaterGet() })
 		}
 		if quiet {
 			acts = append(acts, Action{W: 3, Name: "advance", Do: func() {
@@ -588,7 +617,10 @@ func (l *live) refresh() {
 	if l.t.Bool(1, 3) {
 		d = []time.Duration{time.Millisecond, time.Second, 10 * time.Second}[l.t.Choice(3)]
 	}
-	ctx, _ := w.Ctx(d)
+	ctx, cancel := w.Ctx(d)
+	l.refreshSeq++
+	rid := l.refreshSeq
+	l.cancellable[rid] = cancel
 	l.absorb()
 	pre := l.snapshotKnown()
 	l.tasksBusy++
@@ -603,6 +635,7 @@ func (l *live) refresh() {
 	w.Spawn("refresh", func(*kernel.Task) {
 		err := st.Refresh(ctx)
 		w.Gate()
+		delete(l.cancellable, rid)
 		w.callReturn()
 		l.tasksBusy--
 		w.Tracef("refresh returned %v", err)
@@ -813,6 +846,23 @@ func (l *live) checkBlockedReaders() {
 			l.w.Fail("read-blocks", "a handle read (%s) waits for a lock whose holder %s is waiting for a service request (%s)", tk, owner.Name, ot)
 		default:
 			l.w.S.Probe("reader-contended")
+		}
+	}
+}
+
+// checkDocComplete: C13 - at a quiescent point (no task busy, no round
+// running) the last document written holds every secret the store has handed
+// out a handle for (unless it was dropped by expiry).
+func (l *live) checkDocComplete() {
+	if !l.o.Oracles["doc-complete"] || l.closed || l.tasksBusy > 0 || l.w.InFlight() > 0 || !l.w.FlightsIdle() {
+		return
+	}
+	if all, _ := l.w.S.Tickets(); len(all) > 0 {
+		return
+	}
+	for _, n := range SortedKeys(l.handles) {
+		if _, ok := l.prevDoc[n]; !ok && !l.droppedKeptHandle(n) {
+			l.fail("doc-complete", "nothing is in flight, the store has handed out a handle for %q, but the last cache document written does not hold it (document: %v)", n, SortedKeys(l.prevDoc))
 		}
 	}
 }
